@@ -415,13 +415,14 @@ static const OpDef g_ops[] = {
 };
 #define NOPS ((int)(sizeof(g_ops) / sizeof(g_ops[0])))
 
-typedef struct OpRun { int op, count; OpOut out[64]; int nout; uint64_t draws; } OpRun;
+#define MAX_REP 1000
+typedef struct OpRun { int op, count; OpOut out[MAX_REP]; int nout; uint64_t draws; } OpRun;
 static OpRun g_or;
 
 static void op_task(void *arg)
 {
 	OpRun *r = arg;
-	for (int i = 0; i < r->count && i < 64; i++) {
+	for (int i = 0; i < r->count && i < MAX_REP; i++) {
 		OpOut *o = &r->out[i];
 		memset(o, 0, sizeof(*o));
 		g_oo = o;
@@ -456,6 +457,17 @@ static void op_exec(const Plan *p, uint64_t ent, int count, int64_t efail_at, in
 static int eph_equal(const OpOut *a, int i, const OpOut *b, int j)
 {
 	return a->ephlen[i] == b->ephlen[j] && a->ephlen[i] >= 8 && !memcmp(a->eph[i], b->eph[j], a->ephlen[i]);
+}
+
+typedef struct EphRef { const OpOut *o; int rep, x; } EphRef;
+static int ephref_order(const EphRef *a, const EphRef *b) { return a->rep != b->rep ? a->rep - b->rep : a->x - b->x; }
+static int ephref_cmp(const void *pa, const void *pb)
+{
+	const EphRef *a = pa, *b = pb;
+	int la = a->o->ephlen[a->x], lb = b->o->ephlen[b->x];
+	if (la != lb) return la - lb;
+	int c = memcmp(a->o->eph[a->x], b->o->eph[b->x], (size_t)la);
+	return c ? c : ephref_order(a, b);       /* total order: the reported pair does not depend on qsort internals */
 }
 
 /* ------------------------------------------------------------- generation */
@@ -527,6 +539,8 @@ static void entropy_gen(Plan *p, uint64_t base_seed, uint64_t variant, int tier)
 	if (p->op && variant >= 36) {
 		p->defect = variant >= 38 ? EM_HISTORY : EM_PAIR;
 		p->op_count = g_ops[p->op].slow ? (tier ? 24 : 6) : (tier ? 60 : 24);
+		/* long histories (C18: "sequences of up to 1000 repeated operations in one stream"): fast operations only */
+		if (!g_ops[p->op].slow && p->defect == EM_HISTORY && variant == 39) p->op_count = tier ? 1000 : 250;
 		return;
 	}
 	if (m < 85) {
@@ -576,7 +590,7 @@ static void entropy_run(const Plan *p, RunResult *r)
 		if (p->defect == EM_PAIR || p->defect == EM_HISTORY) {
 			static OpRun a;
 			int cnt = (int)(p->op_count > 0 ? p->op_count : 2);
-			if (cnt > 64) cnt = 64;
+			if (cnt > MAX_REP) cnt = MAX_REP;
 			op_exec(p, (uint64_t)p->ent_c, cnt, -1, 0, -1, 0, 0);
 			a = g_or;
 			r->nontrivial = 1;
@@ -584,17 +598,23 @@ static void entropy_run(const Plan *p, RunResult *r)
 			r->fault_id = r->nontrivial_id;
 			for (int i = 0; i < a.nout; i++)
 				if (a.out[i].status != 1 || !a.out[i].valid) { rr_violation(r, "entropy_op_failed", "%s repetition %d failed without any fault", opn, i); return; }
-			/* no reuse within one stream */
-			for (int i = 0; i < a.nout; i++)
-				for (int x = 0; x < a.out[i].neph; x++)
-					for (int j = i; j < a.nout; j++)
-						for (int y = (j == i ? x + 1 : 0); y < a.out[j].neph; y++)
-							if (eph_equal(&a.out[i], x, &a.out[j], y) && (j != i || 1)) {
-								/* values of different kinds inside one repetition may coincide only if identical bytes; that is reuse too */
-								rr_violation(r, "x", "%s: ephemeral value %d of repetition %d equals value %d of repetition %d in one entropy stream", opn, x, i, y, j);
-								snprintf(r->vclass, sizeof(r->vclass), "entropy_reuse:%s", opn);
-								return;
-							}
+			/* no reuse within one stream (sorted, so that histories of 1000 repetitions stay cheap) */
+			{
+				static EphRef refs[MAX_REP * MAX_EPH];
+				int nr = 0;
+				for (int i = 0; i < a.nout; i++)
+					for (int x = 0; x < a.out[i].neph && nr < (int)(sizeof(refs) / sizeof(refs[0])); x++)
+						if (a.out[i].ephlen[x] >= 8) refs[nr++] = (EphRef){ &a.out[i], i, x };
+				qsort(refs, (size_t)nr, sizeof(refs[0]), ephref_cmp);
+				for (int k = 0; k + 1 < nr; k++)
+					if (eph_equal(refs[k].o, refs[k].x, refs[k + 1].o, refs[k + 1].x)) {
+						/* values of different kinds inside one repetition may coincide only if identical bytes; that is reuse too */
+						const EphRef *lo = ephref_order(&refs[k], &refs[k + 1]) <= 0 ? &refs[k] : &refs[k + 1], *hi = lo == &refs[k] ? &refs[k + 1] : &refs[k];
+						rr_violation(r, "x", "%s: ephemeral value %d of repetition %d equals value %d of repetition %d in one entropy stream", opn, lo->x, lo->rep, hi->x, hi->rep);
+						snprintf(r->vclass, sizeof(r->vclass), "entropy_reuse:%s", opn);
+						return;
+					}
+			}
 			if (p->defect == EM_PAIR) {
 				/* same stream again: identical; other stream: all different */
 				op_exec(p, (uint64_t)p->ent_c, cnt, -1, 0, -1, 0, 0);
